@@ -51,6 +51,10 @@ def record(co, opc, ident, fmt, tab=None):
         r["upos"] = up
         r["has"].append("upos")
     sl, io = [], []
+    if len(co.co_code) > 20000:
+        # xdis's instruction iterator is quadratic in the code length (40 min for an 80 KB function): the line *table* of such a
+        # code object is still judged (starts, ranges, per-unit lines and positions); its instruction stream is C02-C04's subject
+        return r
     for i in Bytecode(co, opc):
         io.append(i.offset)
         if i.starts_line is not None:
@@ -113,7 +117,7 @@ def main():
                         import traceback
                         r = {"id": ident, "error": "%s: %s" % (type(e).__name__, e), "tb": traceback.format_exc()[-600:]}
                     fh.write(json.dumps(r) + "\n")
-                    if n_ < 3 and "error" not in r and hasattr(c, "replace"):
+                    if n_ < 3 and "error" not in r and hasattr(c, "replace") and len(c.co_code) <= 20000:
                         # portable code objects are mutable: after the first reading, a copy with another first line must be read
                         # from its own fields (anything remembered from the first reading would show as the old lines)
                         ident2 = ident + "@firstline+100"
